@@ -114,6 +114,16 @@ CHECKS.update({
             "/.well-known/core listing and 16 single-criterion filters are compared with the model's subset; add/remove histories of "
             "length <= 3 are followed by a full routing sweep after every step.",
             TB + "Quick explores a seed-rotated 1/7 of the 3-resource sets.", "DESIGN.md 6/C17"),
+    "C19": ("exploration", E1 + ", with every file-system access observed (audit hook + os wrappers) and before/after snapshots",
+            "A real FileServer on a scratch tree (root with files and a sub-directory, a sibling whose name has the root's name as prefix, a "
+            "file next to the root) receives every Uri-Path list of length <= 2 over a 13-component alphabet with every method x write "
+            "flag x conditional option x Observe, a third of the length-3 lists with GET/PUT/DELETE, and absolute-path lists built from the "
+            "scratch directory's own location. Every path the request touches must resolve inside the root, nothing outside may change, "
+            "nothing at all may change without write permission, and requests leading outside must be refused; files of nine boundary "
+            "sizes are fetched block by block at SZX 0-6 in order and reversed and compared with their bytes.",
+            "Trusted: CPython audit events for file-system access, the harness. Destructive operations outside the scratch directory are "
+            "refused by a fuse in the harness (recorded as touches) so that a real escape cannot damage the machine.",
+            "DESIGN.md 6/C19"),
     "C18": ("model_checking", E2 + " (the deviation is shutdown at every step)", C18TXT,
             TB + "K=1 (quick, +K=2 on three scenarios), K=2 (thorough).", "DESIGN.md 6/C18"),
     "C14": ("model_checking", E2,
